@@ -46,7 +46,7 @@ Step ==
             /\ UNCHANGED <<samples, discCalls, ended>>
        [] Ev.e = "Write" ->
             /\ conns' = [conns EXCEPT ![Ev.g].started = TRUE,
-                                      ![Ev.g].accepted = @ \/ (Ev.p = "CONNECT" /\ Ev.o \in {"ok", "cutAfter", "dropAck"} /\ Ev.connack = "accepted"),
+                                      ![Ev.g].accepted = @ \/ (Ev.p = "CONNECT" /\ Ev.o \in {"ok", "cutAfter", "dropAck", "lateAck"} /\ Ev.connack = "accepted"),
                                       ![Ev.g].graceful = @ \/ (Ev.p = "DISCONNECT" /\ Ev.o = "ok" /\ conns[Ev.g].accepted /\ conns[Ev.g].connackRead)]
             /\ UNCHANGED <<cbs, samples, discCalls, ended>>
        [] Ev.e = "Read" ->
@@ -188,6 +188,11 @@ C13_SilentPeerDetected ==
       /\ \E c \in 1..Len(cbs[w.g]) : cbs[w.g][c].s = "Closed" /\ cbs[w.g][c].cls = "pingtimeout"
       /\ \E c \in 1..Len(hist.closes) : hist.closes[c].g = w.g /\ hist.closes[c].by = "local" /\ hist.closes[c].seq > w.seq
       /\ \E d \in 1..ND : hist.dials[d].seq > w.seq
+\* the first ping that gets no response is the one that is reported: the keep-alive loop writes no further PINGREQ
+\* on a connection after one of its PINGREQs went unanswered (runs without application pings in the background)
+C13_TimeoutOnFirstUnanswered ==
+  (fresh = "Write" /\ T[l - 1].req /\ T[l - 1].p = "PINGREQ" /\ ~Cfg.hammer) =>
+    ~\E i \in DroppedPings : hist.writes[i].g = T[l - 1].g /\ hist.writes[i].seq < T[l - 1].seq
 C13_OnlySilentPeer ==
   (fresh = "ConnState" /\ LastCb.cls = "pingtimeout") =>
     \E i \in DroppedPings : hist.writes[i].g = CbG
@@ -206,7 +211,8 @@ Obs == [ C16_ActiveOnce |-> C16_ActiveOnce, C16_ActiveOnlyAfterAccept |-> C16_Ac
          C09_NoDialAfterDisconnectDuringWait |-> C09_NoDialAfterDisconnectDuringWait,
          C09_NoDialAfterCancelledConnect |-> C09_NoDialAfterCancelledConnect, C09_DisconnectReturns |-> C09_DisconnectReturns,
          C09_Reestablished |-> C09_Reestablished,
-         C13_SilentPeerDetected |-> C13_SilentPeerDetected, C13_OnlySilentPeer |-> C13_OnlySilentPeer ]
+         C13_SilentPeerDetected |-> C13_SilentPeerDetected, C13_OnlySilentPeer |-> C13_OnlySilentPeer,
+         C13_TimeoutOnFirstUnanswered |-> C13_TimeoutOnFirstUnanswered ]
 Failing == {n \in DOMAIN Obs : ~Obs[n]}
 Mon == LET cur == TLCGet(tid)
            known == {p[1] : p \in cur.v}
